@@ -19,7 +19,10 @@ META = dict(
                "DbKeyValues::from_storage with the checked vector length, every index key through load_db_value; then the complete read of every "
                "component) with theorem C07_db_load_total_partial: for EVERY record map the outcome is a database or an error, or the panic of "
                "load_db_value for an unknown type nibble (the one listed site = known class panic-db_value-explicit-panic; "
-               "C07_db_load_total_with_type_check: with that check the model never panics), never a read buffer above the limit; PARTIAL: the model stops "
+               "C07_db_load_total_with_type_check: with that check the model never panics), never a read buffer above the limit; "
+               "C07_db_load_agrees_with_C05 (FULL): on every record store that holds a database (stored_db of C05) the outcome is Loaded d' with d' "
+               "THE database C05_db_reload's load_db returns; C07_db_load_nonvacuous: every outcome occurs (one damaged byte of C05's example store "
+               "panics at open). PARTIAL: the model stops "
                "at two write paths (no root record -> a database is created; a 40..47 byte root record -> legacy conversion) and the QUERIES that read an "
                "opened damaged database lazily are not modelled — for those the evidence is the mutation run. "
                "The model is tied to /repo on every run: for each damaged input of at most 1200 bytes the outcome class of the real Storage::new "
